@@ -23,7 +23,7 @@ from inferno.learn import STDP, TripletSTDP, MSTDP, MSTDPET
 
 from mc.common import Tally
 from mc.pool import run_shards
-from checks.trainer_common import Cellspec, all_histories, shifted_pre, trace, prev, identity_reduction, F64
+from checks.trainer_common import Cellspec, all_histories, shifted_pre, trace, prev, identity_reduction, F64, step_layer
 
 ID = "C08"
 LEVEL = "model_checking"
@@ -100,7 +100,7 @@ def drive(tally, case, spec, dt, trainer, layer, pre_bits, post_bits, sigs, gamm
     kind = case["trainer"]
     for t in range(T):
         try:
-            layer(spec.pre_tensor(pre_bits[t]), neuron_kwargs={"override": spec.post_tensor(post_bits[t])})
+            step_layer(layer, spec.pre_tensor(pre_bits[t]), spec.post_tensor(post_bits[t]))
             if kind in ("mstdp", "mstdpet"):
                 sg = float(sigs[t][0]) if scalar_signal else sigs[t]
                 trainer(sg, gamma)
@@ -236,7 +236,7 @@ def reduction_shard(kind, conn, nio, dt, sign, redname):
                 ok = True
                 for t in range(T):
                     try:
-                        layer(spec.pre_tensor(pre_bits[t]), neuron_kwargs={"override": spec.post_tensor(post_bits[t])})
+                        step_layer(layer, spec.pre_tensor(pre_bits[t]), spec.post_tensor(post_bits[t]))
                         if kind in ("mstdp", "mstdpet"):
                             trainer(float(sigs[t][0]) if scalar else sigs[t], gamma)
                         else:
@@ -302,7 +302,7 @@ def applied_shard(kind, sign, T, delayed=False):
             w = layer.connection.weight.detach().clone().to(F64)
             for t in range(T):
                 try:
-                    layer(spec.pre_tensor(pre_bits[t]), neuron_kwargs={"override": spec.post_tensor(post_bits[t])})
+                    step_layer(layer, spec.pre_tensor(pre_bits[t]), spec.post_tensor(post_bits[t]))
                     if three:
                         trainer(float(seq[t]), gamma)
                     else:
@@ -347,7 +347,7 @@ def multicell_shard(kind, sign, T):
         ok = True
         for t in range(T):
             for i, L_ in enumerate(layers):
-                L_(spec.pre_tensor([hists[i][t][:1]]), neuron_kwargs={"override": spec.post_tensor([hists[i][t][1:]])})
+                step_layer(L_, spec.pre_tensor([hists[i][t][:1]]), spec.post_tensor([hists[i][t][1:]]))
             try:
                 if three:
                     tr(sigs[t], gamma)
